@@ -5,6 +5,7 @@ From W.model Require Import Pool PoolSpec.
 From W.proofs Require Import PoolBase_proofs Pool_proofs.
 From Coq Require Import Arith Lia ZifyNat ZifyN ZifyBool Sorting.Permutation.
 Local Open Scope nat_scope.
+Set Default Proof Using "All".
 
 Definition is_write (f : field) (a : act) : bool :=
   match a with AWrite g => field_eqb f g | _ => false end.
@@ -86,16 +87,19 @@ Qed.
 
 Section Data.
   Variable c : cfg.
-  Hypothesis Hbody : c_body c = bodyA \/ c_body c = bodyB.
-  Hypothesis Hinner : c_inner c = inner_prog.
-  Hypothesis Houter : c_outer c = outer_prog.
-  Hypothesis Hsel : c_select c = true.
-  Hypothesis Hw : 1 <= c_w c.
-  Hypothesis Hecap : c_w c <= c_ecap c.
-  Hypothesis Hccap : 1 <= c_ccap c.
+  Hypothesis Hok : cfg_ok c.
+  Let Hbody := ok_body c Hok.
+  Let Hinner := ok_inner c Hok.
+  Let Houter := ok_outer c Hok.
+  Let Hsel := ok_sel c Hok.
+  Let Hw := ok_w c Hok.
+  Let Hecap := ok_ecap c Hok.
+  Let Hccap := ok_ccap c Hok.
   Variable items : list pitem.
 
   Local Notation InvC := (InvC c).
+  Local Notation worker_ph := (worker_ph c Hok).
+  Local Notation all_done_of_wg0 := (all_done_of_wg0 c Hok).
   Definition total : N := sum_rows (blocks_of items).
 
   Definition DataOK (s : st) : Prop :=
@@ -313,7 +317,7 @@ Section Data.
     InvD (set_worker (upd_sh s b st0 r a m g e) k wk').
   Proof.
     intros I D Hk Hd Hst Hwd Ha Hr He Hwe Hdata.
-    pose proof (worker_ph c s k wk I Hk Hd) as Hph.
+    pose proof (worker_ph s k wk I Hk Hd) as Hph.
     pose proof (nth_error_lt _ _ _ Hk) as Hlt.
     destruct D as [Drc Dab Dw Dd (R1 & R2 & R3 & R4)].
     constructor; simpl.
